@@ -516,7 +516,7 @@ func showInJS(env *env, out io.Writer, value any) error {
 		}
 		return err
 	case reflect.Slice:
-		if b, ok := value.([]byte); ok {
+		if b, ok := value.([]byte); ok && b != nil {
 			w := newStringWriter(out)
 			return escapeBytes(w, b, true)
 		}
@@ -719,7 +719,7 @@ func showInJSON(env *env, out io.Writer, value any) error {
 		}
 		return err
 	case reflect.Slice:
-		if b, ok := value.([]byte); ok {
+		if b, ok := value.([]byte); ok && b != nil {
 			w := newStringWriter(out)
 			return escapeBytes(w, b, true)
 		}
